@@ -110,6 +110,19 @@ CHECKS = {
         "lists, duplicate patterns and state patterns x 5 cascade scopes x every history of <= 2 (thorough 3) events with same / different names "
         "and kinds: the rules fired per event must equal the reference set (matching, in scope, unsuppressed), each exactly once, and a triggering "
         "event is never skipped"),
+ "C03": dict(engine="engine-B", cat="exploration", ref="DESIGN.md 5.2, 7/C03, 9a", note="reference semantics encode only what ecal.md and the property statement define; Unspecified (counted, not compared): zero divisors, % outside non-negative integers, ordering across kinds, equality/membership of containers, like/hasPrefix/hasSuffix on non-strings, membership in non-lists; left-to-right operand evaluation", tech="bounded exhaustive enumeration of expression trees against an independent reference evaluator that works on the generator's own trees (precedence from the stated table, not from the parser)",
+   text="all x op y over 13 operands (numbers incl. 0 and fractions, strings, booleans, null, variables, a list) x 19 binary operators; prefix -, +, "
+        "not on either operand and over the parenthesised pair; all x op1 y op2 z unparenthesised (reference tree built by precedence climbing over "
+        "the stated table) and in both parenthesisations over 7 operands of every kind; each in 2-3 layouts (spaces, newline after every operator, "
+        "redundant parentheses): 950 000 evaluations quick, 490 000 with a defined result (thorough adds all operator triples over 4 operands). "
+        "Oracle: value equality (float64 bit-equal) or a runtime error of the stated type naming the offending operand"),
+ "C04": dict(engine="engine-B", cat="exploration", ref="DESIGN.md 5.2, 7/C04, 9a", note="observation = ordered trace of a harness mark() function plus type/detail/data of the final error; left open: otherwise after return/break/continue, exits from inside finally, range with contradictory or missing step, control statements leaving the program", tech="bounded exhaustive enumeration of programs (full product over exit kinds x handler shapes x clauses x contexts) against a small-step reference interpreter over the generator's own statement trees",
+   text="every try statement = body exit kind (fall through, raise A, raise B, runtime error, return, break, continue) x 8 handler shapes (none, "
+        "bare, `e`, \"A\", \"A\" as e, \"A\",\"B\", \"A\" then bare, \"B\" then \"A\" as e) x otherwise (absent, marker, raising) x finally x handler "
+        "blocks that raise / return, placed at top level, in loop and function bodies and inside another try's body / except / otherwise "
+        "(5 400 programs); every loop kind (range(a,b[,s]) for a,b in 1..3, s in {none,1,2,-1}; lists; condition) x exit statement (none, break, "
+        "continue, raise, return) at every iteration x nesting; if/elif/else chains x all truth assignments. Oracle: marker trace and final "
+        "error (type, detail, data) equal the reference"),
 }
 
 ENGINES = [
